@@ -78,7 +78,8 @@ class Ctx:
       self.maxes[name] = v
 
   def distinct(self, obj):
-    self.dist.add(stable_hash(obj))
+    if len(self.dist) < 250000:     # counted conservatively beyond this
+      self.dist.add(stable_hash(obj))
 
   def sample(self, obj, cap=3):
     if len(self.samples) < cap:
@@ -97,9 +98,10 @@ class Ctx:
     self.out.flush()
 
   def flush(self, final=False):
+    # the distinct-hash list is only shipped with the final record (it can be large)
     self._emit({'k': 'sum', 'final': final, 'cases': self.ncases,
                 'counters': self.counters, 'maxes': self.maxes,
-                'distinct': sorted(self.dist), 'samples': self.samples,
+                'distinct': sorted(self.dist) if final else [], 'ndistinct': len(self.dist), 'samples': self.samples,
                 'timed_out': self.timed_out})
     self.last_flush = time.time()
 
